@@ -15,6 +15,13 @@
    BUILT is reached and fails at the CLOSED/FAILED that comes first; when_closed; a close wait completes
    exactly once, not before the object is gone, and by the later of acknowledgement and event (at once when
    the object is already gone); a refused close command fails its wait.
+   Histories may also contain TorState.build_circuit() calls (OBuild) and Tor's answer to the oldest unanswered one
+   (OExtended id = "250 EXTENDED id", OBuildErr = 5xx), the answer before or after the first CIRC event of id: the
+   call completes exactly once with the Circuit object standing for id -- the one already announced if an event came
+   first (no second circuit_new; listeners and waits on it keep working), else a new one announced now.  Quantifier
+   limit: answers come in command order, and the property does not depend on how close acknowledgements and
+   EXTENDCIRCUIT answers interleave, so legality keeps the two kinds apart (no build_circuit() while a close command
+   may be unanswered, no close request while an EXTENDCIRCUIT is unanswered).
    The former findings C08-F1 / C08-F2 are repaired in /repo (ce7627d, b4f1a1d); their witnesses stay as
    regression anchors: C08_stream_close_after_gone_now_accepted, C08_circuit_close_after_failed_now_accepted.
    Kept as separately readable consequences / model-level facts: C08_notifications_exact, C08_waits_once,
@@ -80,4 +87,15 @@ Example C08_nonvacuous :
   oracle8 ops [[]; [NCirc 1 0 0 0 []; NCirc 1 1 0 0 []]; [];
                [NCirc 1 2 0 2 []; NCirc 1 3 0 0 []; NDone 7 (WOkC 0)]; [NCmd 0 5]; [];
                [NDone 8 (WOkC 0); NCirc 1 4 0 0 [(2, 3); (102, 3)]]] = true.
+Proof. vm_compute. repeat split; reflexivity. Qed.
+
+(* ... and with build_circuit(): the event before the answer (no second circuit_new, the listener and the wait added
+   to the announced object are served), the answer before the event (circuit_new at the answer), an error answer *)
+Example C08_builds_nonvacuous :
+  let ops := [OAddCL 1; OBuild [2] 1; OEv (ECirc 4 CLaunched [] [(0, 0)]); OCListen 0 2; OWhenBuilt 0 2; OExtended 4;
+              OEv (ECirc 4 CBuilt [{| h_rid := 2; h_nick := 0 |}] []); OBuild [] 3; OExtended 5; OBuild [1] 4; OBuildErr] in
+  let tr := [[]; [NCmd 2 1; NCmd 3 2]; [NCirc 1 0 0 0 []; NCirc 1 1 0 0 []]; []; []; [NDone 1 (WOkC 0)];
+             [NCirc 1 2 0 2 []; NCirc 2 2 0 2 []; NCirc 1 3 0 0 []; NCirc 2 3 0 0 []; NDone 2 (WOkC 0)]; [NCmd 2 0];
+             [NCirc 1 0 1 0 []; NDone 3 (WOkC 1)]; [NCmd 2 1; NCmd 3 1]; [NDone 4 (WFail 4 0 0)]] in
+  legal8 ops = true /\ xrun [] ops = Some tr /\ oracle8 ops tr = true.
 Proof. vm_compute. repeat split; reflexivity. Qed.
